@@ -357,6 +357,8 @@ class CompilerProcess:
             rec["stdout_len"] = len(out)
         if "Traceback (most recent call last)" in err or "Traceback (most recent call last)" in out:
             rec["traceback_printed"] = True
+        if "recursion limit" in (rec.get("msg") or "") or (rec["outcome"].startswith(("exit:", "sysexit:")) and "recursion limit" in err):
+            rec["resource_limit"] = True  # bitproto's own "too deeply nested" report (see oracles)
         exc = None
         return rec, result
 
